@@ -352,8 +352,20 @@ static inline void %(s)s_dtor(%(s)s *v) { if (v->b) free(v->b); v->b = 0; v->n =
             v = X("mem", o, "v", ty=VT)
             m = q.split("::")[-1]
             tr.rule("std::atomic model (sequential)")
+            count = tr.opts.get("count_atomic_ops")
             tr.assume("std::atomic", "sequentially consistent single-thread semantics: load/store/RMW on a plain field; inter-thread ordering is not modelled")
             nonmo = [a for a in args if a.get("kind") != "CXXDefaultArgExpr"]
+            if count:
+                # atomic discipline: every atomic access is counted in the ghost verif_atomic_ops
+                r0 = self.atomic_op(m, v, VT, nonmo, args)
+                if r0.k == "deref" or m in ("operator=",):
+                    pass
+                return X("comma", X("incdec", "++", False, X("var", "verif_atomic_ops")), r0, ty=r0.ty)
+            return self.atomic_op(m, v, VT, nonmo, args)
+
+    def atomic_op(self, m, v, VT, nonmo, args):
+        tr = self.tr
+        if True:
             if m in ("load", "operator " + VT.name, "operator long long", "operator unsigned long", "operator bool", "operator int", "operator long") or m.startswith("operator ") and not nonmo and m not in ("operator++", "operator--"):
                 return v
             if m in ("store",):
